@@ -261,6 +261,15 @@ class TransportModel(object):
                     evs.append(('reset', fd))
                     if not s.blackhole:
                         evs.append(('silence', fd))
+            # accept(2): the listener is reported readable but the pending connection has gone by the time accept()
+            # is called (withdrawn / reset in between, or a spurious wake-up): accept() answers EAGAIN
+            for nd in w.nodes:
+                if not nd.alive:
+                    continue
+                for fd, (cb, mask) in sorted(nd.poller.subs.items()):
+                    s = net.sockets.get(fd)
+                    if s is not None and s.state == 'listening' and not s.backlog and getattr(s, 'owner', None) == nd.idx and mask & READ:
+                        evs.append(('wake', nd.idx, fd))
             for fd, s in sorted(net.sockets.items()):
                 if s.state == 'connected' and s.peer is not None and not s.fail_next_send and not s.err and \
                         isinstance(getattr(s, 'owner', None), int) and w.nodes[s.owner].alive:
@@ -325,6 +334,11 @@ class TransportModel(object):
                 nd = w.nodes[ev[1]]
                 CUR[0] = nd.idx
                 nd.poller.dispatch(ev[2], ev[3])
+            elif k == 'wake':
+                w.used['F'] += 1
+                nd = w.nodes[ev[1]]
+                CUR[0] = nd.idx
+                nd.poller.dispatch(ev[2], READ)
             elif k == 'tick':
                 nd = w.nodes[ev[1]]
                 CUR[0] = nd.idx
@@ -476,6 +490,13 @@ class TransportModel(object):
                             conn = cc
                     up = conn is not None and conn.state == CONNECTION_STATE.CONNECTED
                     last = nd.rec.notif.get(addr(b), 'down')
+                    if up and b in w.members[nd.idx]:
+                        # "connected" means messages can be exchanged: the descriptor behind an established
+                        # TcpConnection has completed its handshake
+                        sk = getattr(conn, '_TcpConnection__socket', None)
+                        if sk is not None and getattr(sk, 'state', 'connected') == 'connecting':
+                            return core.Violation('C14 node %d reports %s connected (send() returns True) while the handshake of that '
+                                                  'connection attempt has not completed' % (nd.idx, addr(b)), sig='connected-before-handshake')
                     if b in w.members[nd.idx] and up != (last == 'up'):
                         return core.Violation('C14 node %d: last notification about %s is %r but its connection to it is %s' % (
                             nd.idx, addr(b), last, 'established (send() works)' if up else 'not established (send() fails)'),
